@@ -162,6 +162,15 @@ class Program:
                     for t in st.targets:
                         if isinstance(t, ast.Name):
                             m.assigns.setdefault(t.id, []).append(st.value)
+                        elif isinstance(t, (ast.Tuple, ast.List)) and all(isinstance(x, ast.Name) for x in t.elts):
+                            # a, b, c = 1, 2, 3   /   a, b = f()  (the latter as subscripts of the value)
+                            for i, x in enumerate(t.elts):
+                                if isinstance(st.value, (ast.Tuple, ast.List)) and len(st.value.elts) == len(t.elts):
+                                    val = st.value.elts[i]
+                                else:
+                                    val = ast.copy_location(ast.Subscript(value=st.value, slice=ast.Constant(i), ctx=ast.Load()), st.value)
+                                    ast.fix_missing_locations(val)
+                                m.assigns.setdefault(x.id, []).append(val)
                 elif isinstance(st, ast.AnnAssign) and isinstance(st.target, ast.Name) and st.value is not None:
                     m.assigns.setdefault(st.target.id, []).append(st.value)
                 elif isinstance(st, ast.Try):
@@ -489,6 +498,9 @@ class Program:
                     r = self.lookup_global(f.module, n.id) if n.id not in self._locals(f) else None
                     if r and r[0] == "func":
                         out.add(r[1])
+                    elif r and r[0] == "var":
+                        # a module-level table read here: the functions / classes its value refers to (dispatch tables)
+                        out |= self._table_targets(r[1], r[2])
                 elif isinstance(n, ast.Attribute) and isinstance(n.ctx, ast.Load):
                     # dunder protocol / property-like use by name
                     pass
@@ -496,6 +508,40 @@ class Program:
             for g in f.module.all_funcs:
                 if getattr(g, "nested", False) and g.qualname.startswith(f.qualname + ".<locals>."):
                     out.add(g)
+        return out
+
+    def _table_targets(self, mod, name, depth=0):
+        key = (mod.name, name)
+        memo = self.__dict__.setdefault("_table_targets_memo", {})
+        if key in memo:
+            return memo[key]
+        memo[key] = set()
+        out = set()
+        for v in mod.assigns.get(name, []):
+            for n in ast.walk(v):
+                if isinstance(n, ast.Name) and isinstance(n.ctx, ast.Load):
+                    r = self.lookup_global(mod, n.id)
+                    if r and r[0] == "func":
+                        out.add(r[1])
+                    elif r and r[0] == "class":
+                        for meth in r[1].methods.values():
+                            out.add(meth)
+                    elif r and r[0] == "var" and depth < 3 and (r[1].name, r[2]) != key:
+                        out |= self._table_targets(r[1], r[2], depth + 1)
+                elif isinstance(n, ast.Attribute) and isinstance(n.ctx, ast.Load) and isinstance(n.value, ast.Name):
+                    # Class.method / module.function stored in a table
+                    r = self.lookup_global(mod, n.value.id)
+                    if r and r[0] == "class":
+                        mm = self.find_method(r[1], n.attr)
+                        if mm is not None:
+                            out.add(mm)
+                    elif r and r[0] == "module" and r[1] is not None:
+                        rr = self.lookup_global(r[1], n.attr)
+                        if rr and rr[0] == "func":
+                            out.add(rr[1])
+                elif isinstance(n, ast.Lambda):
+                    pass
+        memo[key] = out
         return out
 
     def closure(self, roots, may: bool, extra_edges=None):
